@@ -196,6 +196,21 @@ def helper_bodies(c, node, max_nodes=150, ret=r"^(bool|core::result::Result<bool
     return out
 
 
+def scanner_of_infer_rec(cp):
+    """the recursive scanner that bindings::analysis::infer_rec runs over each definition body (a nested `fn go` today): found as the
+    one crate-local function infer_rec calls that takes a TypeInner-matching walk, so moving or renaming it is not an event"""
+    h = cp.fn(r"^candid_parser::bindings::analysis::infer_rec$")
+    cands = []
+    for n in walk(h["body"]):
+        if n.get("k") == "call":
+            k = callee(n)
+            if k and k in cp.hir and k != h["key"] and k.startswith("candid_parser::bindings::analysis::") and k not in cands:
+                cands.append(k)
+    if len(cands) != 1:
+        raise AnchorMissing(f"infer_rec: expected one local scanner function, found {cands}")
+    return cp.hir[cands[0]]
+
+
 def panics_in(node):
     """macro-level panic family sites under node: list of (macro name, line)"""
     out = []
